@@ -288,6 +288,14 @@ func (m *Mast) flush(ctx context.Context) (string, error) {
 		m.root = nil
 		return "", nil
 	}
+	// Store a private copy of the unpersisted nodes: storing marks nodes
+	// clean and replaces child pointers by hashes as soon as the writes are
+	// queued, so after a failed write the tree itself would be unusable and
+	// a retry would skip nodes that never reached the store.
+	node, err = node.ToShared()
+	if err != nil {
+		return "", err
+	}
 	storeQ := make(chan func() error)
 	n := 40
 	gate := make(chan interface{}, n)
